@@ -117,6 +117,7 @@ def ofStoreOut (created : Bool) : Out → Outcome
   | .badEtag => .error      -- InvalidETag is not caught by the handlers
   | .noSuchItem => .error
   | .deleted => .error
+  | .failed => .error
 
 def World.setColl (w : World) (p : String) (c : Coll) : World :=
   { w with colls := w.colls.insert p c }
